@@ -17,7 +17,7 @@ def run(m, chk):
         "the limits comparison raising ValueError dominates the computation in ImmutableKnotVector.__or__/__and__ (GATE), and the result depends on both operands (DEP-MAY). "
         "That | is the common refinement is not decided (and is false for different degrees, DESIGN §5)."
     )
-    chk.decides = ["PURE", "FRESH", "GATE(limits ⇒ ValueError)", "DEP-MAY both operands", 'BOTH-MULTS (multiplicities of both operands consulted)', 'MULT-KEEP']
+    chk.decides = ["PURE", "FRESH", "GATE(limits ⇒ ValueError)", "DEP-MAY both operands", 'BOTH-MULTS (multiplicities of both operands consulted)', 'MULT-KEEP', 'SAME-INTERVAL (the interval guard is an equality, not a one-sided containment)']
     chk.not_decided = ["U|V is the coarsest common refinement (wrong for different degrees — out of static reach)", "commutativity / idempotence as values"]
     for q in (KV + ".__or__", KV + ".__and__", IKV + ".__or__", IKV + ".__and__"):
         r.pure("PURE", q, ["self", "other"])
@@ -31,6 +31,9 @@ def run(m, chk):
         guards = limits_guards(r, ctx, {("P", 0)}, {("P", 1)})
         guards = [g for g in guards if "limits" in seg(g[0].ast)]
         chk.floor("GATE-LIMITS", f"limits guard in {q}", len(guards), 1)
+        from .extra import same_interval
+
+        same_interval(r, chk, ctx, guards, q)
         rets = [n for n in r.stmt_nodes(ctx) if isinstance(n.ast, ast.Return)]
         for n in rets:
             ok = any(r.guard_dominates(ctx, g, n.id) for g in guards)
